@@ -36,13 +36,14 @@ IGNORES = {
 class Opts(object):
     def __init__(self, terms='tok', max_rules=4, shaping=False, priorities=False, acyclic=False, templates=False,
                  ignore=True, term_prio=False, max_alts=3, max_items=3, depth=2, big_rep=False, anon_re=False,
-                 underscore_terms=None, ignore_kinds=None, nonnull=False, unit_bias=False, tok_sets=None, distinct_anon=False, unique_aliases=False, re_safe=False):
+                 underscore_terms=None, ignore_kinds=None, nonnull=False, unit_bias=False, tok_sets=None, distinct_anon=False, unique_aliases=False, re_safe=False, ignore_in_rules=False):
         self.terms = terms; self.max_rules = max_rules; self.shaping = shaping; self.priorities = priorities
         self.acyclic = acyclic; self.templates = templates; self.ignore = ignore; self.term_prio = term_prio
         self.max_alts = max_alts; self.max_items = max_items; self.depth = depth; self.big_rep = big_rep
         self.anon_re = anon_re
         self.underscore_terms = shaping if underscore_terms is None else underscore_terms
         self.ignore_kinds = ignore_kinds
+        self.ignore_in_rules = ignore_in_rules      # an %ignore'd terminal may also be referenced by a rule (mandatory-whitespace idiom)
         self.tok_sets = tok_sets
         self.re_safe = re_safe     # only regexps whose every match length is found by lark's dynamic_complete truncation (no unsorted alternation)
         self.unique_aliases = unique_aliases   # an alias name is used by one rule only
@@ -277,6 +278,11 @@ def grammars(draw, o):
             r = cands[draw(st.integers(0, len(cands) - 1))]
             a = r['alts'][draw(st.integers(0, len(r['alts']) - 1))]
             a['items'].insert(draw(st.integers(0, len(a['items']))), ['n', names[i]])
+    if o.ignore_in_rules and ignore and draw(st.booleans()):
+        for _ in range(draw(st.integers(1, 2))):
+            r = rules[draw(st.integers(0, len(rules) - 1))]
+            a = r['alts'][draw(st.integers(0, len(r['alts']) - 1))]
+            a['items'].insert(draw(st.integers(0, len(a['items']))), ['t', ignore[draw(st.integers(0, len(ignore) - 1))]])
     if tmpl:
         alts = []
         seen = set()
